@@ -213,6 +213,9 @@ Proof.
   apply G; [destruct kind; reflexivity|apply sfx_len; apply sfx_blank, sfx_struct_like, sfx_refl].
 Qed.
 
+Lemma eof_err (T : list byte) : 0 < length T -> is_perr (eof T).
+Proof. destruct T; cbn [length eof]; [lia|intros _; exact I]. Qed.
+
 Lemma items_loop : forall l b0 fuel, wf_blank b0 = true -> (l = [] -> b0 = []) -> wf_items l = true ->
   sfx (pr_blank b0 (pr_items l [])) whole -> length (pr_blank b0 (pr_items l [])) < fuel ->
   many_till fuel elem eof (pr_blank b0 (pr_items l [])) = POk [] (erase_items l, []).
@@ -246,8 +249,7 @@ Proof.
     { pose proof (len_blank b0 (pr_item it (pr_blank b R))) as L1. pose proof (len_item it (pr_blank b R)) as L2.
       pose proof (len_blank b R) as L3. clear - L1 L2 L3. lia. }
     cbn [many_till].
-    assert (Eeof : is_perr (eof (pr_blank b0 (pr_item it (pr_blank b R))))).
-    { destruct (pr_blank b0 (pr_item it (pr_blank b R))); [cbn [length] in L; lia|exact I]. }
+    assert (Eeof : is_perr (eof (pr_blank b0 (pr_item it (pr_blank b R))))) by (apply eof_err; clear - L; lia).
     destruct (eof (pr_blank b0 (pr_item it (pr_blank b R)))); cbn in Eeof; try contradiction.
     rewrite E1. rewrite (same_len_shorter _ _ L).
     assert (SR : sfx (pr_blank [] R) whole) by (cbn [pr_blank]; sfx_of S).
